@@ -554,7 +554,7 @@ def run(ctx):
         add(boundary(rng, i), "boundary")   # every curated case is run (cyclically)
 
     bad = coqrun.eval_cases(ctx, "infer", PREAMBLE, [c["lit"] for c in cases],
-        "fun c : sexpr * eres * option bool => let '(e, o, b) := c in eres_eqb (infer_e e) o b")
+        "fun c : sexpr * eres * option bool => let '(e, o, b) := c in eres_eqb (infer_e e) o b", case_type="sexpr * eres * option bool")
     for i in bad[:40]:
         c = cases[i]
         why = spec_contradicted(c["expr"], c["obs"])
@@ -569,7 +569,7 @@ def run(ctx):
     wcases = wrapper_stream(ctx, ctx.pick(150, 2000))
     badw = coqrun.eval_cases(ctx, "wrappers", PREAMBLE, [c["lit"] for c in wcases],
         "fun c : sexpr * option dim => match infer_e (fst c), snd c with Ok (_, d) , Some d2 => deqb d d2 "
-        "| Err _, None => true | _, _ => false end")
+        "| Err _, None => true | _, _ => false end", case_type="sexpr * option dim")
     for i in badw[:20]:
         c = wcases[i]
         try:
